@@ -7,7 +7,7 @@ Open Scope list_scope.
 
 (* an accepted assignment is what the label resolves to afterwards *)
 Theorem C08_get_after_set : forall r n b w,
-  repo_exists r w = true -> label_name_ok n = true -> b <> EmptyString ->
+  repo_exists r w = true -> label_elem_ok n = true -> b <> EmptyString ->
   fst (set_label r n b w) = ROk /\ get_label r n (snd (set_label r n b w)) = Some b.
 Proof. exact get_after_set_label. Qed.
 Print Assumptions C08_get_after_set.
@@ -32,6 +32,11 @@ Proof. exact get_after_delete_label. Qed.
 Print Assumptions C08_get_after_delete.
 
 (* names the API accepts contain no '/', hence build keys that parse back to the same name (C20) *)
-Theorem C08_accepted_names : forall n, label_name_ok n = true -> noslash n = true.
+Theorem C08_accepted_names : forall n, label_elem_ok n = true -> noslash n = true.
 Proof. exact label_ok_noslash. Qed.
 Print Assumptions C08_accepted_names.
+
+(* every name of the documented alphabet (model.ValidateLabel, C20) is accepted *)
+Theorem C08_documented_names_accepted : forall n, label_name_ok n = true -> label_elem_ok n = true.
+Proof. exact label_name_elem. Qed.
+Print Assumptions C08_documented_names_accepted.
